@@ -187,3 +187,85 @@ Definition net_deriv (net : pnet) (st : list (Qc * Qc)) : list (Qc * Qc) :=
                  let i := node_input net st j in
                  (eval_poly x v (kval nd) i (px nd), eval_poly x v (kval nd) i (pv nd)))
       (combine (seq 0 (length (pnodes net))) (pnodes net)).
+
+(* ================================================================================================ vectorized helpers *)
+(* PyRates-authored helper functions emitted for vectorized / population circuits (base_funcs.py, same text in jax_funcs.py
+   and torch_funcs.py):
+     wsum(weight, coupling) = einsum('ij,ij->i', weight, coupling)      row i: sum_j W[i][j] * X[i][j]
+     broadcast_pre(x)  = x[None, :]   (the source vector as a row, repeated for every target unit)
+     broadcast_post(x) = x[:, None]   (the target vector as a column, repeated for every source unit)
+   A coupling edge template c(u_s, u_t) is emitted as  wsum(W, c(broadcast_pre(src), broadcast_post(tgt)))  with numpy
+   broadcasting of the (1,m) and (n,1) operands to (n,m). *)
+Definition wsum (W X : list row) : row := map (fun p => dot (fst p) (snd p)) (combine W X).
+Definition broadcast_pre (x : row) (n : nat) : list row := repeat x n.
+Definition broadcast_post (x : row) (m : nat) : list row := map (fun xi => repeat xi m) x.
+Definition mat_map2 (c : Qc -> Qc -> Qc) (A B : list row) : list row :=
+  map (fun p => map (fun q => c (fst q) (snd q)) (combine (fst p) (snd p))) (combine A B).
+Definition coupling_input (c : Qc -> Qc -> Qc) (W : list row) (pre post : row) : row :=
+  wsum W (mat_map2 c (broadcast_pre pre (length post)) (broadcast_post post (length pre))).
+(* Spec: target unit i receives sum_j W[i][j] * c(source_j, target_i) *)
+Definition coupling_spec (c : Qc -> Qc -> Qc) (W : list row) (pre post : row) : row :=
+  map (fun p => fold_right Qcplus 0 (map (fun q => fst q * c (snd q) (snd p)) (combine (fst p) pre))) (combine W post).
+Definition matvec (W : list row) (x : row) : row := map (fun r => dot r x) W.
+
+(* slice assignment  buf[lo:lo+len(vals)] = vals  (in place)  /  buf = buf.at[lo:hi].set(vals)  (jax): the same array value *)
+Definition set_range (buf : row) (lo : nat) (vals : row) : row :=
+  firstn lo buf ++ vals ++ skipn (lo + length vals) buf.
+Definition apply_updates (buf : row) (us : list (nat * row)) : row := fold_left (fun b u => set_range b (fst u) (snd u)) us buf.
+(* the two vector-field conventions: (value of the caller's dy argument after the call, returned array) *)
+Definition inplace_call (dy : row) (us : list (nat * row)) : row * row := let r := apply_updates dy us in (r, r).
+Definition functional_call (dy : row) (us : list (nat * row)) : row * row := (dy, apply_updates dy us).
+(* consecutive slices starting at position `at_` *)
+Fixpoint consecutive (at_ : nat) (us : list (nat * row)) : Prop :=
+  match us with [] => True | (lo, vals) :: us' => lo = at_ /\ consecutive (at_ + length vals) us' end.
+Definition total_len (us : list (nat * row)) : nat := fold_right (fun u n => length (snd u) + n)%nat 0%nat us.
+
+(* the ring buffer of a discrete delay:  buf[:] = roll(buf, 1); buf[0] = x;  delayed = buf[d] *)
+Definition ring_push (buf : row) (x : Qc) : row := set_nth (roll buf 1) 0 x.
+Definition ring_step (d : nat) (buf : row) (x : Qc) : row * Qc := let b := ring_push buf x in (b, nth d b 0).
+(* in place: the buffer argument is mutated, the next call sees the pushed buffer *)
+Fixpoint ring_run_inplace (d : nat) (buf : row) (xs : list Qc) : list Qc :=
+  match xs with [] => [] | x :: xs' => let '(b, o) := ring_step d buf x in o :: ring_run_inplace d b xs' end.
+(* functional update on an immutable argument (what a jax translation would do): every call starts from the same buffer *)
+Definition ring_run_unthreaded (d : nat) (buf : row) (xs : list Qc) : list Qc := map (fun x => snd (ring_step d buf x)) xs.
+(* Spec: the value pushed d calls ago, the initial buffer before that *)
+Definition ring_spec (d : nat) (buf : row) (xs : list Qc) : list Qc :=
+  map (fun k => if (d <=? k)%nat then nth (k - d) xs 0 else nth (d - k - 1) buf 0) (seq 0 (length xs)).
+
+(* population systems of the correspondence run: units x' = eta - a*x + s_in, connections with optional coupling template *)
+Record conn := { csrc : nat; ctgt : nat; cW : list row; ckind : nat }.
+Record popsys := { psizes : list nat; petas : list row; pavals : list row; pconns : list conn }.
+Fixpoint split_by (sizes : list nat) (y : row) : list row :=
+  match sizes with [] => [] | n :: s' => firstn n y :: split_by s' (skipn n y) end.
+Definition cfun (k : nat) : Qc -> Qc -> Qc :=
+  match k with 1%nat => fun s t => s - t | 2%nat => fun s t => s * t + s | _ => fun s _ => s end.
+Definition conn_input (cin : (Qc -> Qc -> Qc) -> list row -> row -> row -> row) (c : conn) (xs : list row) : row :=
+  let pre := nth (csrc c) xs [] in let post := nth (ctgt c) xs [] in
+  match ckind c with O => matvec (cW c) pre | k => cin (cfun k) (cW c) pre post end.
+Definition pop_rhs_with cin (s : popsys) : rhs := fun _ y =>
+  let xs := split_by (psizes s) y in
+  concat (map (fun t =>
+            let own := vadd (nth t (petas s) []) (map (fun p => - (fst p) * snd p) (combine (nth t (pavals s) []) (nth t xs []))) in
+            fold_left vadd (map (fun c => conn_input cin c xs) (filter (fun c => (ctgt c =? t)%nat) (pconns s))) own)
+          (seq 0 (length (psizes s)))).
+Definition pop_rhs := pop_rhs_with coupling_input.            (* as generated: wsum over broadcast operands *)
+Definition pop_rhs_spec := pop_rhs_with coupling_spec.        (* as the user reads it *)
+Definition pop_run_impl (b : backend) (s : popsys) (dt : Qc) (steps ss : nat) (y0 : row) : list row :=
+  match b with
+  | BJax => jax_solve (euler_upd (pop_rhs s) dt) (cdiv steps ss) ss 0%Z y0
+  | _ => base_solve (euler_upd (pop_rhs s) dt) steps ss 0%Z y0
+  end.
+Definition pop_run_spec (s : popsys) (dt : Qc) (steps ss : nat) (y0 : row) : list row :=
+  spec_rows (euler_upd (pop_rhs_spec s) dt) ss (cdiv steps ss) 0%Z y0.
+Definition pop_wf (s : popsys) : bool :=
+  forallb (fun c => (length (cW c) =? nth (ctgt c) (psizes s) 0)%nat) (pconns s).
+(* guard of the torch finding: torch cannot compile a coupling template (wsum has no numpy stand-in) *)
+Definition torch_wsum_free (b : backend) (s : popsys) : bool :=
+  match b with BTorch => forallb (fun c => (ckind c =? 0)%nat) (pconns s) | _ => true end.
+
+(* ================================================================================================ sigmoid *)
+(* base_funcs / Fortran helper text / the numpy stand-ins of torch and jax:  1/(1 + exp(-x));
+   torch.sigmoid and jax.nn.sigmoid are the logistic function exp(x)/(1 + exp(x)).  E stands for exp. *)
+Definition sigmoid_base (E : Qc -> Qc) (x : Qc) : Qc := 1 / (1 + E (- x)).
+Definition sigmoid_logistic (E : Qc -> Qc) (x : Qc) : Qc := E x / (1 + E x).
+Definition sigmoid_fortran_vec (E : Qc -> Qc) (xs : row) : row := map (fun x => 1 / (1 + E (- x))) xs.   (* do n=1,s: f(n) = 1/(1+exp(-x(n))) *)
